@@ -137,11 +137,19 @@ TraceBegin ==
 
 \* cleanups must not write
 TraceEnd ==
-  /\ IsEvent("end") /\ CEnd(E.t)
+  /\ IsEvent("end")
+  /\ IF E.hasfs /\ E.resync
+     THEN CEndWith(E.t, [p \in DOMAIN order |->
+                          LET pr == PF(PARSED[l], p) IN
+                          IF IsFile(FS[l], p) /\ pr.wellformed /\ pr.hs = {order[p][i] : i \in DOMAIN order[p]}
+                          THEN pr.order ELSE order[p]])
+     ELSE CEnd(E.t)
   /\ IF E.hasfs
      THEN LET f1 == FS[l] ch == Changed(fs, f1) IN
           /\ fs' = f1 /\ pfs' = PARSED[l]
-          /\ LET all == IF ch # {} THEN <<MM("end.wrote", "", "", "", CHOOSE p \in ch : TRUE, "", "")>> ELSE <<>> IN
+          \* resync: parallel subtests of this test ran since the last observation (no directory is
+          \* captured between parallel siblings); what they wrote is read here, not judged
+          /\ LET all == IF ch # {} /\ ~E.resync THEN <<MM("end.wrote", "", "", "", CHOOSE p \in ch : TRUE, "", "")>> ELSE <<>> IN
              /\ bad' = Report(all)
              /\ tainted' = Taint(all)
      ELSE UNCHANGED <<fs, pfs, bad, tainted>>
@@ -259,7 +267,7 @@ TraceMatch ==
                      /\ seen # fmtOf[c.val.vid]
                   THEN <<MM("format.unstable", "", "", st, p, hdr, c.val.vid)>> ELSE <<>>
      IN
-     /\ CMatchAt(c, eff, seen, IF sa THEN p ELSE CallSPath(c))
+     /\ CMatchAtL(c, eff, seen, IF sa THEN p ELSE CallSPath(c), E.hasfs)
      /\ fs' = f1 /\ pfs' = pm1
      /\ owner' = IF sa /\ Writes(eff) THEN Put(owner, p, c.test) ELSE owner
      /\ LET fsMM ==
